@@ -178,8 +178,17 @@ def snapshot_from(cell, pos, types, timestep=0):
     H = np.array(cell["H"], dtype=float)
     lo = np.array(cell["lo"], dtype=float)
     d = H.shape[0]
-    if cell["kind"] == "tri":
-        bounds, _, real = geom.lammps_bounds(H, lo)
+    if cell["kind"] in ("tri", "general"):
+        if cell["kind"] == "tri":
+            bounds, _, real = geom.lammps_bounds(H, lo)
+        else:
+            # general cell (e.g. a reader-style triclinic cell after an axis permutation: P H P^T is no longer lower
+            # triangular): real bounds from the diagonal, bounding box from the off-diagonal components of the
+            # cell vectors (reduces to the LAMMPS formulas for a lower-triangular H)
+            off = H - np.diag(np.diag(H))
+            real = np.stack([lo, lo + np.diag(H)], axis=1)
+            bounds = np.stack([lo + np.minimum(off, 0.0).sum(axis=0), lo + np.diag(H) + np.maximum(off, 0.0).sum(axis=0)],
+                              axis=1)
         return SingleSnapshot(timestep=int(timestep), nparticle=len(pos), particle_type=np.array(types, dtype=int),
                               positions=np.array(pos, dtype=float), boxlength=np.diag(H).copy(),
                               boxbounds=bounds, realbounds=real, hmatrix=H.copy())
